@@ -327,6 +327,13 @@ def aten_align_to(self: TensorType, names: Sequence[str]) -> TensorType:
     raise NotImplementedError()
 
 
+def _uint8_like_input(result: BOOL, input: TTensor) -> TTensor:
+    """torch.all / torch.any return uint8 for a uint8 input (and bool for every other type)."""
+    if input.dtype == UINT8.dtype:
+        return op.Cast(result, to=UINT8.dtype)
+    return result
+
+
 @torch_op("aten::all", trace_only=True)
 def aten_all(self: TTensor) -> BOOL:
     """all(Tensor self) -> Tensor"""
@@ -338,13 +345,17 @@ def aten_all(self: TTensor) -> BOOL:
         self_int = op.Cast(self_bool, to=INT64.dtype)
         all_true = op.ReduceMin(self_int, keepdims=False)
         result = op.Cast(all_true, to=BOOL.dtype)
-    return result
+    return _uint8_like_input(result, self)
 
 
 @torch_op("aten::all.dim", trace_only=True)
 def aten_all_dim(self: TTensor, dim: int, keepdim: bool = False) -> BOOL:
     """all.dim(Tensor self, int dim, bool keepdim=False) -> Tensor"""
 
+    return _uint8_like_input(_aten_all_dim_bool(self, dim, keepdim), self)
+
+
+def _aten_all_dim_bool(self: TTensor, dim: int, keepdim: bool) -> BOOL:
     self_bool = op.Cast(self, to=BOOL.dtype)
     self_int = op.Cast(self_bool, to=INT64.dtype)
     dims = op.Reshape(dim, op.Constant(value_ints=[-1]))
@@ -357,15 +368,16 @@ def aten_all_dims(self: TTensor, dim: Sequence[int] = (), keepdim: bool = False)
     """all.dims(Tensor self, int[]? dim=None, bool keepdim=False) -> Tensor"""
 
     if dim is None:
-        return _aten_all_dims_no_dim(self, keepdim)
+        return _uint8_like_input(_aten_all_dims_no_dim(self, keepdim), self)
     if len(dim) == 0 or len(self.shape) == 0:
         # PyTorch reduces nothing for an empty dim list; a 0-d tensor has nothing to reduce
-        return op.Cast(self, to=BOOL.dtype)
+        return _uint8_like_input(op.Cast(self, to=BOOL.dtype), self)
+    result = self
     for d in dim:
-        self = aten_all_dim(self, d, keepdim=True)
+        result = _aten_all_dim_bool(result, d, keepdim=True)
     if not keepdim:
-        self = op.Squeeze(self, list(dim))
-    return self
+        result = op.Squeeze(result, list(dim))
+    return _uint8_like_input(result, self)
 
 
 def _aten_all_dims_no_dim(self: TTensor, keepdims: bool) -> BOOL:
@@ -477,13 +489,17 @@ def aten_any(self: TTensor) -> BOOL:
         self_int = op.Cast(self_bool, to=INT64.dtype)
         any_true = op.ReduceMax(self_int, keepdims=False)
         result = op.Greater(any_true, op.Constant(value_int=0))
-    return result
+    return _uint8_like_input(result, self)
 
 
 @torch_op("aten::any.dim", trace_only=True)
 def aten_any_dim(self: TTensor, dim: int, keepdim: bool = False) -> BOOL:
     """any.dim(Tensor self, int dim, bool keepdim=False) -> Tensor"""
 
+    return _uint8_like_input(_aten_any_dim_bool(self, dim, keepdim), self)
+
+
+def _aten_any_dim_bool(self: TTensor, dim: int, keepdim: bool) -> BOOL:
     self_bool = op.Cast(self, to=BOOL.dtype)
     # op.ReduceMax() in the next step cannot process BOOL inputs, so convert to INT64
     self_int = op.Cast(self_bool, to=INT64.dtype)
@@ -498,15 +514,16 @@ def aten_any_dims(self: TTensor, dim: Sequence[int] = (), keepdim: bool = False)
     """any.dims(Tensor self, int[1]? dim=None, bool keepdim=False) -> Tensor"""
 
     if dim is None:
-        return _aten_any_dims_no_dim(self, keepdim)
+        return _uint8_like_input(_aten_any_dims_no_dim(self, keepdim), self)
     if len(dim) == 0 or len(self.shape) == 0:
         # PyTorch reduces nothing for an empty dim list; a 0-d tensor has nothing to reduce
-        return op.Cast(self, to=BOOL.dtype)
+        return _uint8_like_input(op.Cast(self, to=BOOL.dtype), self)
+    result = self
     for d in dim:
-        self = aten_any_dim(self, d, keepdim=True)
+        result = _aten_any_dim_bool(result, d, keepdim=True)
     if not keepdim:
-        self = op.Squeeze(self, list(dim))
-    return self
+        result = op.Squeeze(result, list(dim))
+    return _uint8_like_input(result, self)
 
 
 def _aten_any_dims_no_dim(self: TTensor, keepdims: bool) -> BOOL:
